@@ -735,13 +735,14 @@ def arr_store(eng, st, base, sl, value, node):
     d = eng.arr_data(st, base)
     key = 'd%d:%s' % (nd, elem_tag(ek))
     items = index_items(sl)
-    dtype = eng.frame.contract.ghost.get('dtype:' + (node.targets[0].value.id if isinstance(node, ast.Assign) and
-                                                      isinstance(node.targets[0], ast.Subscript) and
-                                                      isinstance(node.targets[0].value, ast.Name) else ''), None)
+    dtype = st.ghost.get('npdtype:%d' % base.t.get_id()) if base.t is not None else None
+    RANGES = {'uint8': (0, 2 ** 8), 'uint16': (0, 2 ** 16), 'uint32': (0, 2 ** 32), 'uint64': (0, 2 ** 64), 'int8': (-2 ** 7, 2 ** 7),
+              'int16': (-2 ** 15, 2 ** 15), 'int32': (-2 ** 31, 2 ** 31), 'int64': (-2 ** 63, 2 ** 63), 'intp': (-2 ** 63, 2 ** 63)}
 
     def dtype_check(term):
-        if dtype == 'uint16':
-            eng.oblige(st, "dtype:uint16-range@L%d" % node.lineno, 'bounds', z3.And(term >= 0, term < 65536), node)
+        if ek == 'int' and dtype in RANGES:
+            lo_, hi_ = RANGES[dtype]
+            eng.oblige(st, "dtype:%s-range@L%d" % (dtype, node.lineno), 'bounds', z3.And(term >= lo_, term < hi_), node)
     eng.check_store(st, base.t, None, node, 'array-item')
     if len(items) == 1 and not isinstance(items[0], ast.Slice):
         iv = eng.ev(items[0], st)
@@ -944,12 +945,19 @@ def _filled(eng, st, args, kw, node, value):
             eng.oblige(st, "noexc:negative-dimension@L%d" % node.lineno, 'noexc', s_ >= 0, node)
             st.assume(s_ >= 0)
     val = z3.RealVal(value) if ek == 'real' else z3.IntVal(value)
+    if dt is not None and dt.k == 'str' and dt.py.split('.')[-1] in ('float32', 'float16'):
+        raise Unsupported("reduced-precision float dtype %s" % dt.py)
     if len(sh) == 1:
-        return eng.mk_arr(st, 1, ek, sh, z3.K(I, val))
-    if len(sh) == 2:
+        res = eng.mk_arr(st, 1, ek, sh, z3.K(I, val))
+    elif len(sh) == 2:
         i, j = z3.Int(fresh_name('i')), z3.Int(fresh_name('j'))
-        return eng.mk_arr(st, 2, ek, sh, lam([i, j], val))
-    raise Unsupported("array rank %d" % len(sh))
+        res = eng.mk_arr(st, 2, ek, sh, lam([i, j], val))
+    else:
+        raise Unsupported("array rank %d" % len(sh))
+    if ek == 'int' and res.t is not None:
+        # the integer dtype READ FROM THE SOURCE bounds what may be stored (numpy wraps or raises outside it)
+        st.ghost['npdtype:%d' % res.t.get_id()] = dt.py.split('.')[-1]
+    return res
 
 
 @model('numpy.zeros')
@@ -1837,3 +1845,45 @@ def m_list2(eng, st, args, kw, node):
 @model('sys.stdout')
 def sys_stdout(eng, st, args, kw, node):
     return Val(('opaque', 'stream'), z3.IntVal(1))
+
+
+@model('numpy.where')
+def np_where(eng, st, args, kw, node):
+    """np.where(cond, a, b) elementwise on equal-shape 1-D/2-D arrays (a, b arrays or scalars)"""
+    if len(args) != 3 or kw:
+        raise Unsupported("np.where form")
+    c, a, b = args
+    if not (isinstance(c.k, tuple) and c.k[0] == 'arr' and c.k[2] == 'bool'):
+        raise Unsupported("np.where condition")
+    used(eng, "np.where(cond, a, b): elementwise selection (both branches are evaluated by numpy; only the selected value is kept)")
+    nd = c.k[1]
+    sh = eng.arr_shape(st, c)
+    cd = eng.arr_data(st, c)
+    i, j = z3.Int(fresh_name('i')), z3.Int(fresh_name('j'))
+    vars_ = [i] if nd == 1 else [i, j]
+    operands, kinds = [cd], []
+    for v in (a, b):
+        if isinstance(v.k, tuple) and v.k[0] == 'arr':
+            osh = eng.arr_shape(st, v)
+            for p_, q_ in zip(sh, osh):
+                if not st.spec:
+                    eng.oblige(st, "noexc:shape-mismatch@L%d" % node.lineno, 'noexc', p_ == q_, node)
+                st.assume(p_ == q_)
+            operands.append(eng.arr_data(st, v))
+            kinds.append(('a', v.k[2]))
+        else:
+            operands.append(to_real(v))
+            kinds.append(('s', 'real'))
+
+    def body(*vs):
+        xs = []
+        for (tag, ek_), o in zip(kinds, operands[1:]):
+            if tag == 'a':
+                e = z3.Select(o, *vs)
+                xs.append(z3.ToReal(e) if ek_ == 'int' else e)
+            else:
+                xs.append(o)
+        return z3.If(z3.Select(cd, *vs), xs[0], xs[1])
+    _CUR[0] = st
+    content = named_array(eng, 'where_%dd_%s' % (nd, '_'.join(t for t, _ in kinds)), operands, vars_, body)
+    return eng.mk_arr(st, nd, 'real', sh, content)
